@@ -59,7 +59,7 @@ func vfGenProdConf(t *rapid.T, emph string) vfProdConf {
 	c.FlushMessages = rapid.SampledFrom([]int{0, 0, 0, 1, 2, 5}).Draw(t, "flushMessages")
 	c.FlushBytes = rapid.SampledFrom([]int{0, 0, 0, 100, 1000}).Draw(t, "flushBytes")
 	c.FlushFreqUs = rapid.SampledFrom([]int{0, 0, 500, 3000}).Draw(t, "flushFreqUs")
-	if (c.FlushMessages > 0 || c.FlushBytes > 0) && c.FlushFreqUs == 0 && emph != "C16" && (emph != "C01" || rapid.IntRange(0, 79).Draw(t, "keepNoFrequency") != 0) {
+	if (c.FlushMessages > 0 || c.FlushBytes > 0) && c.FlushFreqUs == 0 && emph != "C16" && (emph != "C01" || rapid.IntRange(0, 79).Draw(t, "keepNoFrequency") != 37) {
 		// without a frequency a count/bytes trigger may legitimately never fire; keep that configuration for C16 only
 		c.FlushFreqUs = 1000
 	}
